@@ -873,6 +873,60 @@ pub fn run(ctx: &Ctx, c06: bool) -> i32 {
     });
     total.merge(narrow);
   }
+  // band cones: cones lying ENTIRELY inside one latitude band of the cell-size helpers (between
+  // two critical parallels), the near edge at 2 %..60 % of the radius from the parallel, on either
+  // side of each parallel; radii at 0.55 / 0.75 / 0.95 of every start-depth threshold k = 1..5,
+  // covered 1 and 2 levels below the start depth (the levels where full flags are decided from the
+  // per-depth bounds of that band), 12 longitudes across a base cell
+  {
+    let tl = transition_lat();
+    let crit_lat = [tl, -tl, 0.39934019947897773, -0.39934019947897773, 0.0, HALF_PI, -HALF_PI];
+    let kmax: usize = if quick { 4 } else { 6 };
+    let band = par_jobs(kmax * crit_lat.len(), |job| {
+      let (k, l0) = (1 + job / crit_lat.len(), crit_lat[job % crit_lat.len()]);
+      let mut part = Part::new();
+      if ctx.over_budget() {
+        part.caps.push(format!("wall budget {}s reached in the band cones", ctx.budget_s));
+        return part;
+      }
+      let t = thresholds();
+      for f in [0.55, 0.75, 0.95] {
+        let r = t[k] * f;
+        for g in [0.02, 0.1, 0.25, 0.6] {
+          for s in [-1.0, 1.0] {
+            let lat = l0 + s * (1.0 + g) * r;
+            if lat.abs() + r >= HALF_PI && l0.abs() < HALF_PI || lat.abs() > HALF_PI {
+              continue;
+            }
+            for kl in 0..12 {
+              let lon = 3.0 * PI / 2.0 + 0.011 + kl as f64 * (HALF_PI / 12.0);
+              for dd in [1u8, 2] {
+                let d = k as u8 + dd;
+                if d > if quick { 6 } else { 8 } {
+                  continue;
+                }
+                let q = ConeQ { variant: 0, depth: d, delta: 0, lon: lon.rem_euclid(TWO_PI), lat, r };
+                part.stratum("band-cones", 1, 1);
+                if c06 {
+                  if let Some(v) = check_c06(&q, &mut part) {
+                    part.viol(v);
+                  }
+                } else {
+                  match check_c05(&q, listed_kf1, &mut part) {
+                    Verdict::Ok => {}
+                    Verdict::Known(kf, ex) => part.known(kf, ex),
+                    Verdict::Bad(v) => part.viol(v),
+                  }
+                }
+              }
+            }
+          }
+        }
+      }
+      part
+    });
+    total.merge(band);
+  }
   let mut extra = Map::new();
   // the recorded witness of KF-1 is re-executed on every run (information only)
   if !c06 {
